@@ -253,6 +253,32 @@ def node_session_misuse(rng, nops):
     return ops
 
 
+def node_session_pack_full(rng, cap):
+    """renumber (pack / compact) a container that is EXACTLY full (n == max: 20, 5020, ...): the branch of
+    ref_node_pack / ref_node_compact that re-threads an empty free list"""
+    ops = ['reset tet']
+    gs = list(range(cap + 5))
+    rng.shuffle(gs)
+    live = []
+    for g in gs[:cap]:
+        ops.append('add %d' % (g * 3 + 1))
+        live.append(g)
+    # churn without changing the count: remove a slot, add a fresh global (slot is reused)
+    for k in range(rng.randint(0, 6)):
+        sl = rng.randint(0, cap - 1)
+        ops.append('remove %d' % sl)
+        ops.append('add %d' % (3 * (cap + 10 + k) + 2))
+    ops.append('ndump')
+    ops.append(rng.choice(['pack', 'stable_pack', 'compact', 'stable_compact']))
+    ops.append('ndump')
+    ops.append('local %d' % (gs[0] * 3 + 1))
+    ops.append('add %d' % (3 * (cap + 100)))
+    ops.append('ndump')
+    ops.append('pack')
+    ops.append('ndump')
+    return ops
+
+
 def gen_node(rng, tier):
     scale = 1 if tier == 'quick' else 6
     ops = []
@@ -264,6 +290,9 @@ def gen_node(rng, tier):
     for _ in range(2 * scale):
         ops += node_session_growth(rng, False)
     ops += node_session_growth(rng, True)
+    for _ in range(3 * scale):
+        ops += node_session_pack_full(rng, 20)
+    ops += node_session_pack_full(rng, 5020)
     for _ in range(4 * scale):
         ops += node_session_misuse(rng, rng.randint(60, 250))
     return ops
